@@ -6,9 +6,9 @@ Anchors: source/world_builder/features/{continental_plate,oceanic_plate,mantle_l
 The three copies of a model are modelled once where the C++ copies are textually equal (checked with
 `diff` after renaming; DESIGN §3.2).  Where a copy differs it gets a flag:
 * `uniform` temperature / `uniform raw` velocity of the continental plate test the local range before the
-  global one (`localFirst`);
-* `linear` of the continental plate offsets with `depth - min_depth_local` instead of
-  `depth - min_depth_local_local` (`continentalOffset`).
+  global one (`localFirst`).
+(The continental copy of `linear` used to offset with `depth - min_depth_local`; fixed upstream, 'fix: continental plate linear
+temperature measured depth from the model's min depth instead of the local top', so the three copies are equal again.)
 -/
 import GwbVerif.Model.Ops
 import GwbVerif.Model.Layout
@@ -76,7 +76,7 @@ structure RidgeSpec (R : Type) where
 
 inductive TempModel (R : Type)
   | uniform (rng : DepthRange R) (op : Op) (temperature : R) (localFirst : Bool)
-  | linear (rng : DepthRange R) (op : Op) (top bottom : R) (continentalOffset : Bool)
+  | linear (rng : DepthRange R) (op : Op) (top bottom : R)
   | adiabatic (rng : DepthRange R) (op : Op) (tp alpha cp : R)
   | chapman (rng : DepthRange R) (op : Op) (top flux conductivity heat : R)
   | halfSpace (rng : DepthRange R) (op : Op) (top bottom : R) (ridge : RidgeSpec R)
@@ -155,7 +155,7 @@ def TempModel.get (m : TempModel R) (ctx : Ctx R) (q : Query R) (old fMin fMax :
     match ← rng.locals ctx q lf with
     | none => return old
     | some _ => return applyOp op old temp
-  | .linear rng op top bottom contOff => do
+  | .linear rng op top bottom => do
     match ← rng.locals ctx q false with
     | none => return old
     | some (mn, mx) =>
@@ -164,7 +164,7 @@ def TempModel.get (m : TempModel R) (ctx : Ctx R) (q : Query R) (old fMin fMax :
       let topL := if top < 0 then adiabat ctx.potentialT ctx.alpha q.gravityNorm ctx.cp mnLL else top
       let botL := if bottom < 0 then adiabat ctx.potentialT ctx.alpha q.gravityNorm ctx.cp mxLL else bottom
       let newT := topL + (if mxLL - mnLL < (10.0 : R) * Scalar.eps then 0.0
-                          else (q.depth - (if contOff then mn else mnLL)) * ((botL - topL) / (mxLL - mnLL)))
+                          else (q.depth - mnLL) * ((botL - topL) / (mxLL - mnLL)))
       return applyOp op old newT
   | .adiabatic rng op tp alpha cp => do
     match ← rng.locals ctx q false with
@@ -175,9 +175,9 @@ def TempModel.get (m : TempModel R) (ctx : Ctx R) (q : Query R) (old fMin fMax :
     | none => return old
     | some (mn, _) =>
       let mnLL := Scalar.max fMin mn
-      -- `top_temperature_local` is computed (adiabatic when `top < 0`) but the formula below uses `top_temperature`: as written.
+      let topL := if top < 0 then adiabat ctx.potentialT ctx.alpha q.gravityNorm ctx.cp mnLL else top
       let dz := q.depth - mnLL
-      let newT := top + (flux / k) * dz - heat / ((2.0 : R) * k) * dz * dz
+      let newT := topL + (flux / k) * dz - heat / ((2.0 : R) * k) * dz * dz
       return applyOp op old newT
   | .halfSpace rng op top bottom ridge => do
     match ← rng.locals ctx q false with
